@@ -104,6 +104,25 @@ func (v *V) sites() map[string][]token.Pos {
 }
 
 func (v *V) addObl(st *State, name, kind, goal string, pos token.Pos, desc, expect string) *Obl {
+	if expect == "unsat" && strings.HasPrefix(goal, "(=> ") {
+		if g, ok := parseSx(goal); ok && len(g.kids) == 3 && g.kids[2].head() == "and" && len(g.kids[2].kids) > 2 {
+			var last *Obl
+			for _, k := range g.kids[2].kids[1:] {
+				last = v.addObl(st, name, kind, (&sx{kids: []*sx{g.kids[0], g.kids[1], k}}).String(), pos, desc, expect)
+			}
+			return last
+		}
+	}
+	if expect == "unsat" && strings.HasPrefix(goal, "(and ") {
+		// prove the conjuncts separately (smaller queries, sharper diagnostics)
+		if g, ok := parseSx(goal); ok && g.head() == "and" && len(g.kids) > 2 {
+			var last *Obl
+			for _, k := range g.kids[1:] {
+				last = v.addObl(st, name, kind, k.String(), pos, desc, expect)
+			}
+			return last
+		}
+	}
 	v.oblInst[name]++
 	pc := append([]string(nil), st.pc...)
 	pc = append(pc, st.guards...)
@@ -401,10 +420,11 @@ func (v *V) checkPost(fr *Frame, o Outcome) {
 	if o.st.dead {
 		return
 	}
-	scope, spos := v.funcScope(v.fi)
+	scope, _ := v.funcScope(v.fi)
 	v.nReturns++
 	for k, c := range v.spec.Ensures {
-		e := v.specEnv(o.st, v.entry, fr, scope, spos)
+		e := v.specEnv(o.st, v.entry, fr, scope, v.fi.body.Rbrace)
+		e.proving = true
 		e.retVals = o.rets
 		// in postconditions, parameters denote their values at entry
 		for i := 0; i < v.fi.sig.Params().Len(); i++ {
@@ -725,6 +745,7 @@ func (v *V) checkInvs(fr *Frame, st *State, ls *LoopSpec, ord int, kind string, 
 		for n, val := range extra {
 			e.bound[n] = val
 		}
+		e.proving = true
 		goal := v.evalClause(e, c)
 		name := fmt.Sprintf("%s/%s#%d.%d", v.fi.name(), kind, ord, k)
 		v.addObl(st, name, kind, goal, token.NoPos, fmt.Sprintf("loop %d invariant %s", ord, c.Src), "unsat")
@@ -1052,6 +1073,7 @@ func (v *V) atStmts(e *Env, call *ast.CallExpr, after bool, bind map[string]Val,
 		}
 		switch a.Kind {
 		case "assert":
+			se.proving = true
 			goal := v.evalClause(se, a.C)
 			if v.dry == 0 {
 				nm := fmt.Sprintf("%s/call-site#%s", v.fi.name(), name)
@@ -1306,11 +1328,8 @@ func contractParamNames(fs *FuncSpec, fn *types.Func, prog *Prog) []string {
 	sig := fn.Type().(*types.Signature)
 	var names []string
 	// explicit renaming in the key: "Type.Method(recv, a, b)"
-	if i := strings.Index(fs.Key, "("); i >= 0 && strings.HasSuffix(fs.Key, ")") {
-		for _, n := range strings.Split(fs.Key[i+1:len(fs.Key)-1], ",") {
-			names = append(names, strings.TrimSpace(n))
-		}
-		return names
+	if len(fs.Names) > 0 {
+		return fs.Names
 	}
 	if sig.Recv() != nil {
 		rn := sig.Recv().Name()
